@@ -7,6 +7,7 @@ toolchain go1.23.5
 require (
 	github.com/EliCDavis/jbtf v0.2.0
 	github.com/EliCDavis/polyform v0.0.0
+	github.com/EliCDavis/sfm v1.2.0
 	github.com/EliCDavis/vector v1.8.0
 	golang.org/x/tools v0.29.0
 )
